@@ -51,8 +51,8 @@ def budget(tier):
 def strategy(tier):
     N.enable_long_texts(tier == "thorough")
     mc = 5 if tier == "quick" else 8
-    return st.tuples(N.pair(max_cells=mc, dup_ids=True), st.integers(0, 3)).map(
-        lambda t: {"a": t[0][0], "b": t[0][1], "rel": t[0][2], "file": t[1] == 0})
+    return st.tuples(N.pair(max_cells=mc, dup_ids=True), st.integers(0, 3), st.sampled_from(range(12))).map(
+        lambda t: {"a": t[0][0], "b": t[0][1], "rel": t[0][2], "file": t[1] == 0, "c_locale": t[1] == 0 and t[2] == 5})
 
 
 def has_cell_patch(d):
@@ -98,7 +98,19 @@ def cli_env(prog):
         os.environ.update(env)
 
 
-def file_roundtrip(a, b, out):
+def _real_command(prog, module, argv, d):
+    """The console entry point in a new interpreter whose preferred encoding is not UTF-8 (LC_ALL=C, UTF-8 mode and locale coercion off:
+    what `open(path, "w")` picks up by default on Windows or under a C locale)."""
+    import subprocess
+    env = {k: v for k, v in os.environ.items() if not k.startswith(("LC_", "LANG", "PYTHONIOENCODING", "PYTHONUTF8"))}
+    env.update(LC_ALL="C", LANG="C", PYTHONUTF8="0", PYTHONCOERCECLOCALE="0", JUPYTER_CONFIG_DIR=os.path.join(d, "cfg"),
+               JUPYTER_CONFIG_PATH=os.path.join(d, "cfg"))
+    code = "import sys; sys.argv[0] = %r; from nbdime.%s import main; sys.exit(main(sys.argv[1:]))" % (prog, module)
+    p = subprocess.run([sys.executable, "-c", code] + argv, env=env, cwd=os.path.join(d, "cwd"), stdout=subprocess.PIPE, stderr=subprocess.PIPE, timeout=300)
+    return p.returncode, p.stderr.decode("utf8", "replace")[-300:]
+
+
+def file_roundtrip(a, b, out, c_locale=False):
     import nbformat
     from nbdime import nbdiffapp, nbpatchapp
     d = _workdir()
@@ -108,6 +120,21 @@ def file_roundtrip(a, b, out):
             os.remove(fn)
     nbformat.write(to_nb(a), fa)
     nbformat.write(to_nb(b), fb)
+    if c_locale:
+        out.count("file_interface_runs_under_a_non_utf8_locale")
+        rc, err = _real_command("nbdiff", "nbdiffapp", ["--out", fd, fa, fb], d)
+        if rc != 0:
+            out.fail("file_interface", "nbdiff_exit_status", "exit %r under a non-UTF-8 locale" % (rc,), detail={"stderr": err})
+            return
+        rc, err = _real_command("nbpatch", "nbpatchapp", ["-o", fo, fa, fd], d)
+        if rc != 0:
+            out.fail("file_interface", "nbpatch_exit_status", "exit %r under a non-UTF-8 locale" % (rc,), detail={"stderr": err})
+            return
+        got = plain(nbformat.read(fo, as_version=4))
+        want = plain(nbformat.read(fb, as_version=4))
+        if canon(got) != canon(want):
+            out.fail("file_interface", "rebuilt_file_differs_from_target", "non-UTF-8 locale: " + _first_difference(got, want))
+        return
     try:
         with cli_env("nbdiff"):
             rc = nbdiffapp.main(["--out", fd, fa, fb])
@@ -169,5 +196,5 @@ def run_case(case):
         out.label("duplicate_ids")     # schema-valid, but nbformat.write/read re-ids duplicates randomly: no file clause
     if case.get("file") and not dup:
         out.label("file_interface")
-        file_roundtrip(a, b, out)
+        file_roundtrip(a, b, out, c_locale=bool(case.get("c_locale")))
     return out
